@@ -229,7 +229,7 @@ class GoExec:
                 for hh in st.hyps():
                     if z3.is_quantifier(hh) and alpha_eq(hh, gq):
                         fname = self.frame.key if self.frame else '?'
-                        o = Obligation('%s/%s' % (fname, name), [hh], goal, kind, func=fname, src=src)
+                        o = Obligation('%s/%s' % (fname, name), st.hyps() + list(extra), goal, kind, func=fname, src=src)     # (full path: the vacuity guard looks at it)
                         o.status, o.answer, o.solver = 'discharged', 'unsat', 'syntactic (the goal is one of the hypotheses)'
                         self.obls.append(o)
                         return
